@@ -40,7 +40,7 @@ class C17(Prop):
     }
 
     def sim_options(self, profile):
-        return {"max_boundaries": 20000}
+        return {"max_boundaries": 60000}
 
     # ------------------------------------------------------------------------------------------
     def generate(self, sim, profile):
@@ -57,8 +57,10 @@ class C17(Prop):
 
         def fresh():
             value[0] += 1
-            # mostly unique numbers; now and then the legitimate element None
-            return None if s.chance(1, 10, "none-element") else value[0]
+            # mostly unique numbers; now and then the legitimate elements None / an exception instance (a value like
+            # any other: it must be delivered, not raised)
+            k = s.weighted((16, 2, 1), "element-kind")
+            return value[0] if k == 0 else (None if k == 1 else ["exception-element", value[0]])
 
         init_vals = [fresh() for _ in range(initial)]
         # weights: enq, enqmany, start, cancel_recv, finish, finish_err, cancel_q
@@ -70,7 +72,10 @@ class C17(Prop):
             if k == 0:
                 ops.append(["enq", fresh()])
             elif k == 1:
-                ops.append(["enqmany", [fresh() for _ in range(2 + s.draw(2, "many"))]])
+                if s.chance(1, 40, "big-batch"):
+                    ops.append(["enqmany", [fresh() for _ in range(1200)]])  # one enqueue call with very many elements
+                else:
+                    ops.append(["enqmany", [fresh() for _ in range(2 + s.draw(2, "many"))]])
             elif k == 2:
                 # consumer: pauses between receives? how many receives (0 = until the end)
                 ops.append(["start", s.draw(2, "pauses"), s.draw(4, "limit")])
@@ -93,6 +98,17 @@ class C17(Prop):
         from haiway import AsyncQueue
 
         init_vals, ops = self.generate(sim, profile)
+        exc_elements = {}
+
+        def real(v):
+            if isinstance(v, list) and v and v[0] == "exception-element":
+                if v[1] not in exc_elements:
+                    exc_elements[v[1]] = ValueError(("element", v[1]))
+                return exc_elements[v[1]]
+            return v
+
+        init_vals = [real(v) for v in init_vals]
+        ops = [[o[0], real(o[1])] if o[0] == "enq" else ([o[0], [real(x) for x in o[1]]] if o[0] == "enqmany" else o) for o in ops]
         st = {
             "accepted": list(init_vals), "received": [], "finished": False, "reason": None,
             "reason_kind": None, "reason_seen": False, "consumer": None, "in_recv": False,
@@ -150,6 +166,9 @@ class C17(Prop):
                         break
                     except BaseException as exc:  # noqa: BLE001
                         st["in_recv"] = False
+                        if any(exc is e for e in exc_elements.values()):
+                            sim.fail("element-raised", f"element {exc!r} (an exception instance used as a value) was raised by the "
+                                     f"receive instead of being returned")
                         check_reason(exc, "pending or new receive")
                         break
                     st["in_recv"] = False
@@ -179,7 +198,7 @@ class C17(Prop):
         def do(op):
             q = holder["q"]
             kind = op[0]
-            sim.event("op", *[repr(x) for x in op])
+            sim.event("op", *[repr(x)[:200] for x in op])
             if kind in ("enq", "enqmany"):
                 vals = [op[1]] if kind == "enq" else list(op[1])
                 if st["in_recv"] and not st["handed"]:
